@@ -45,6 +45,20 @@ pub fn crypto_with(node_id: NodeId, seed: &[u8], trusted: &[Vec<u8>], speeds: &[
     Crypto { node_id, key_pair: Arc::new(key_pair), trusted_keys: tk.into_boxed_slice().into(), algorithms: algos }
 }
 
+pub fn set_algorithms(c: &mut Crypto, speeds: &[(u8, f32)], allow_unencrypted: bool) {
+    let mut algos = Algorithms { algorithm_speeds: smallvec![], allow_unencrypted };
+    for (id, s) in speeds {
+        let a: &'static Algorithm = match id {
+            1 => &aead::AES_128_GCM,
+            2 => &aead::AES_256_GCM,
+            3 => &aead::CHACHA20_POLY1305,
+            _ => panic!("bad algo id"),
+        };
+        algos.algorithm_speeds.push((a, *s));
+    }
+    c.algorithms = algos;
+}
+
 pub fn seed_public_key(seed: &[u8]) -> Vec<u8> {
     Ed25519KeyPair::from_seed_unchecked(seed).unwrap().public_key().as_ref().to_vec()
 }
